@@ -553,7 +553,9 @@ fn c04_scenarios(_thorough: bool) -> Vec<Scenario> {
 /// inside work(). Whatever the sink consumed has to be in the file.
 fn c17_scenarios(thorough: bool) -> Vec<Scenario> {
     let mut v = Vec::new();
-    for (per_page, len) in [(1usize, 3usize), (2, 3), (2, 5), (4, 9)] {
+    // (A repeating source commits one repetition per call: the stream then
+    // has room left while the sink is at work.)
+    for (per_page, len, vec_repeat) in [(1usize, 3usize, 0u64), (2, 3, 0), (2, 5, 0), (4, 9, 0), (2, 1, 3), (4, 1, 4), (4, 2, 3)] {
         for order in [vec![0usize, 1], vec![1, 0]] {
             v.push(Scenario::MtResult(
                 GraphSpec {
@@ -563,7 +565,7 @@ fn c17_scenarios(thorough: bool) -> Vec<Scenario> {
                     src_len: len,
                     order,
                     file_repeat: 0,
-                    vec_repeat: 0,
+                    vec_repeat,
                 },
                 if thorough { 3 } else { 2 },
             ));
